@@ -29,7 +29,7 @@ def render(i, variant):
     mode, ret, nosend = i["mode"], i["ret"], i["nosend"]
     rc = variant == "rc"
     rdecl, rty, pdecl, pargs = RET[ret]
-    ns = (", ?Send" if nosend else "") + (", mockall" if i.get("mockall") else "")
+    ns = ((", ?Send = true" if nosend else ", ?Send = false") if i.get("valued") else (", ?Send" if nosend else "")) + (", mockall" if i.get("mockall") else "")
     lt = "'a, " if ret in ("borrow-deps", "borrow-arg") else ""
     g = ", G: Send + 'static" if ret == "generic" else ""
     targ = "<u8>" if ret == "generic" else ""
